@@ -99,6 +99,15 @@ func GenShapeNested(t *rapid.T, idx int) Shape {
 			g.sh.Structs[0].Fields = append(g.sh.Structs[0].Fields, Field{Name: g.fieldName(used), Kind: "plain", Type: views[rapid.IntRange(0, len(views)-1).Draw(t, "classField")]})
 		}
 	}
+	// two more fields of ONE type of a drawn class: the second can only be meant by its name
+	{
+		cls := rapid.SampledFrom([]string{"string", "bytes", "int", "float"}).Draw(t, "pairClass")
+		views := classTypes[cls]
+		ty := views[rapid.IntRange(0, len(views)-1).Draw(t, "pairType")]
+		for k := 0; k < 2; k++ {
+			g.sh.Structs[0].Fields = append(g.sh.Structs[0].Fields, Field{Name: g.fieldName(used), Kind: "plain", Type: ty})
+		}
+	}
 	g.addTags()
 	return *g.sh
 }
@@ -183,9 +192,16 @@ func GenComposeRequests(t *rapid.T, sh *Shape, other *Shape) []Request {
 			continue
 		}
 		x := cands[rapid.IntRange(0, len(cands)-1).Draw(t, "classVictim")]
+		byName := rapid.Bool().Draw(t, "byName")
+		for _, y := range cands {
+			if firstByType(l, y.typ) != y.entry {
+				x, byName = y, true // a field that is NOT the first of its type can only be meant by its name
+				break
+			}
+		}
 		views := classTypes[cls]
 		v := views[rapid.IntRange(0, len(views)-1).Draw(t, "view")]
-		reqs = append(reqs, Request{Prop: "C04", API: "bimapx", N: 1, ByName: rapid.Bool().Draw(t, "byName"), Names: []string{x.key}, Types: []string{x.typ, v}, Foci: []int{x.entry}, Expect: "focus", NT: v != x.typ,
+		reqs = append(reqs, Request{Prop: "C04", API: "bimapx", N: 1, ByName: byName, Names: []string{x.key}, Types: []string{x.typ, v}, Foci: []int{x.entry}, Expect: "focus", NT: v != x.typ,
 			Classes: []string{"bimapX-" + cls}, Extra: map[string]any{"class": cls}})
 	}
 	// product shapes: N distinct leaf fields of mixed types, by name
@@ -224,6 +240,11 @@ func GenComposeRequests(t *rapid.T, sh *Shape, other *Shape) []Request {
 					break
 				}
 			}
+		}
+		// degenerate lists: no entry at all, a lone nil, only nils - a Morphism that transfers nothing and touches nothing
+		for _, list := range [][]int{{}, {-1}, {-1, -1}} {
+			reqs = append(reqs, Request{Prop: "C04", API: "morphism", Expect: "focus", NT: false, Classes: []string{fmt.Sprintf("only-nil-entries=%d", len(list))},
+				Extra: map[string]any{"other": other.Root, "pairs": []map[string]any{}, "list": append([]int{}, list...)}})
 		}
 		if len(cands) > 0 {
 			k := rapid.IntRange(1, min(6, len(cands))).Draw(t, "nisos")
